@@ -26,12 +26,12 @@ DFA = "d.dot"
 REGEX = "r.dot"
 INPUT = "in.usage"
 
-ENV_NAMES = ["HOME", "USER", "LOGNAME", "HOSTNAME", "LANG", "LC_ALL", "LC_COLLATE", "TZ", "TERM", "COLUMNS", "TMPDIR", "PWD", "SHELL",
+ENV_NAMES = ["HOME", "USER", "LOGNAME", "HOSTNAME", "LANG", "LC_ALL", "LC_COLLATE", "LC_CTYPE", "LC_MESSAGES", "LANGUAGE", "TZ", "TERM", "COLUMNS", "TMPDIR", "PWD", "SHELL",
              "SOURCE_DATE_EPOCH", "NO_COLOR", "CLICOLOR_FORCE", "RUST_BACKTRACE", "RUST_LOG", "RUST_MIN_STACK", "PATH", "XDG_CONFIG_HOME",
              "COMPLGEN_VERSION", "CARGO_PKG_VERSION", "RANDOM", "SEED", "HASH_SEED", "MALLOC_ARENA_MAX",
              # glibc allocator tunables legitimately change where allocations land (mmap vs brk, padding): layout seams too
              "MALLOC_MMAP_THRESHOLD_", "MALLOC_TOP_PAD_", "MALLOC_PERTURB_", "MALLOC_MMAP_THRESHOLD_", "MALLOC_TRIM_THRESHOLD_"]
-ENV_VALUES = ["", "0", "1", "C", "en_US.UTF-8", "tr_TR.UTF-8", "UTC", "Asia/Tokyo", "xterm-256color", "dumb", "/tmp", "/root", "root", "nobody",
+ENV_VALUES = ["", "0", "1", "C", "en_US.UTF-8", "tr_TR.UTF-8", "C.utf8", "POSIX", "de_DE.ISO-8859-1", "UTC", "Asia/Tokyo", "xterm-256color", "dumb", "/tmp", "/root", "root", "nobody",
               "1700000000", "always", "full", "debug", "/usr/bin:/bin", "x" * 300, "y" * 3000, "16384", "4096", "86400", "165"]
 
 
@@ -77,6 +77,13 @@ def make_grammars(seed, tier):
     for i in range(n_gen):
         r = rng.sub("gen/%d" % i)
         out.append({"name": "gen/%d" % i, "text": gram.gen_grammar(r, r.choice([15, 25, 40, 60]))})
+    # hundreds of within-word automata of one shape (and a few of another): thresholds on their number, parallel table
+    # construction, grouping of same-shaped automata
+    n = 300 if tier == "quick" else 420
+    many = "wide " + " | ".join("--o%d=(a | b)" % i for i in range(n)) + " | " + " | ".join("--p%d=(x | y | z)" % i for i in range(12)) + ";\n"
+    out.append({"name": "many-subwords/%d" % n, "text": many})
+    # non-ASCII descriptions (the only non-ASCII text the grammar syntax admits)
+    out.append({"name": "unicode-descriptions", "text": "uni (gross \"gro\xc3\x9f\" | nihon \"\xe6\x97\xa5\xe6\x9c\xac\xe8\xaa\x9e\" | --k=(a \"\xc3\xa9\" | b)) <PATH>;\n"})
     for i, g in enumerate(out):
         g["id"] = i
     return out
